@@ -187,8 +187,39 @@ class Run:
                     nh += 1
         if nh == 0:
             raise Infra("empty trace " + trace)
-        r = self.tlc(module, cfg or module + ".cfg", env={"TRACE": trace, "VOUT": vout}, timeout=timeout,
-                     workers=workers, heap=heap)
+        # TLC parses the trace file single-threaded at start-up: big traces are validated as
+        # several shards by concurrent TLC processes (histories are independent behaviours)
+        size = os.path.getsize(trace)
+        nshards = 1 if size < 12 * 1024 * 1024 or nh < 8 else min(4, nh // 2, 1 + size // (12 * 1024 * 1024))
+        if nshards > 1:
+            import concurrent.futures
+            shards = [trace + ".s%d" % k for k in range(nshards)]
+            outs = [open(sp, "w") for sp in shards]
+            with open(trace) as f:
+                k = 0
+                for line in f:
+                    if line.strip():
+                        outs[k % nshards].write(line)
+                        k += 1
+            for o in outs:
+                o.close()
+            w = max(2, (workers or NCPU) // nshards)
+
+            def one(sp):
+                return self.tlc(module, cfg or module + ".cfg", env={"TRACE": sp, "VOUT": sp + ".verdicts"}, timeout=timeout,
+                                workers=w, heap="5g")
+            with concurrent.futures.ThreadPoolExecutor(nshards) as ex:
+                rs = list(ex.map(one, shards))
+            r = dict(ok=all(x["ok"] for x in rs), out="\n".join(x["out"][-3000:] for x in rs if not x["ok"]),
+                     distinct=sum(x["distinct"] for x in rs), generated=sum(x["generated"] for x in rs),
+                     wall=max(x["wall"] for x in rs))
+            with open(vout, "w") as fo:
+                for sp in shards:
+                    if os.path.exists(sp + ".verdicts"):
+                        fo.write(open(sp + ".verdicts").read())
+        else:
+            r = self.tlc(module, cfg or module + ".cfg", env={"TRACE": trace, "VOUT": vout}, timeout=timeout,
+                         workers=workers, heap=heap)
         if not r["ok"]:
             tail = "\n".join(r["out"].splitlines()[-60:])
             raise Infra("trace validation run of %s did not complete:\n%s" % (module, tail))
